@@ -27,4 +27,16 @@ def run(ctx):
 
 
 def replay(ctx, path):
-    srvflow.replay(ctx, path, INV)
+    import json
+    import vlib
+    rp = json.load(open(path))["replay"]
+    if rp.get("mode") == "avail":
+        vlib.cargo_build(["vsrv"])
+        vlib.replay_flow(ctx, path, harness="vsrv", signature=lambda r: "avail:%s" % r.get("ev"),
+                         tmodule_by_mode={"avail": ("server/AvailabilityTrace.tla", "Trace_C04_avail.cfg")})
+    elif rp.get("mode") == "avail-table":
+        from checks import c04avail
+        vlib.cargo_build(["vsrv"])
+        c04avail.run(ctx)
+    else:
+        srvflow.replay(ctx, path, INV)
